@@ -290,7 +290,7 @@ class LookupDB:
             for possible_edit, edit_distance in neighbors.items():
                    if possible_edit in self.seq_dict:
                        for y_index in self.seq_dict[possible_edit]:
-                           if x_index == y_index:
+                           if pdist_mode and x_index == y_index:
                                continue
                            if custom_distance in (None, "hamming"):
                                ans.append((x_index, y_index, edit_distance))
